@@ -482,6 +482,20 @@ func (p *Path) addTimer(d *Term, fn *FuncVal, ch *ChanObj, period *Term, obj *Ob
 
 // fireNextTimer advances virtual time to the earliest pending deadline and fires it.
 func (p *Path) fireNextTimer(from *Task) bool {
+	best := p.earliestTimer()
+	if best == nil {
+		return false
+	}
+	if p.Branch(p.C.Slt(p.now, best.deadline)) {
+		p.now = best.deadline
+	}
+	p.fire(best)
+	return true
+}
+
+// earliestTimer picks the pending timer with the earliest deadline (ties:
+// nondeterministic when the schedule is nondeterministic, else the oldest).
+func (p *Path) earliestTimer() *vTimer {
 	var act []*vTimer
 	for _, tm := range p.timers {
 		if tm.active {
@@ -490,7 +504,7 @@ func (p *Path) fireNextTimer(from *Task) bool {
 	}
 	p.timers = act
 	if len(act) == 0 {
-		return false
+		return nil
 	}
 	best := act[0]
 	for _, tm := range act[1:] {
@@ -514,11 +528,7 @@ func (p *Path) fireNextTimer(from *Task) bool {
 	if len(tied) > 1 && p.schedNondet {
 		best = tied[p.Choose(len(tied), "timer-tie")]
 	}
-	if p.Branch(p.C.Slt(p.now, best.deadline)) {
-		p.now = best.deadline
-	}
-	p.fire(best)
-	return true
+	return best
 }
 
 func (p *Path) fire(tm *vTimer) {
